@@ -51,7 +51,9 @@ type Unit struct {
 	Tag          string // free label (e.g. name of a known-finding exemplar)
 	ExtraDrv     string // extra Go source appended to the driver (ops specific to a property)
 	ExtraImp     []string
-	WantServices bool          // generate handler stubs and service registrations
+	WantServices bool // generate handler stubs and service registrations
+	WantRefl     bool // register file descriptor functions and enum types (with_reflection)
+	Refl         ReflInfo
 	Services     []ServiceInfo // filled by AddServiceDriver
 }
 
@@ -69,12 +71,20 @@ type GenPkg struct {
 
 const guestImport = "scratch/guest"
 
-var guestSrc []byte
+var guestSrc map[string][]byte
 
 func init() {
-	b, err := os.ReadFile(filepath.Join(vlib.Root, "guest", "guest.go"))
-	if err == nil {
-		guestSrc = b
+	files, _ := filepath.Glob(filepath.Join(vlib.Root, "guest", "*.go"))
+	for _, f := range files {
+		if strings.HasSuffix(f, "_test.go") {
+			continue
+		}
+		if b, err := os.ReadFile(f); err == nil {
+			if guestSrc == nil {
+				guestSrc = map[string][]byte{}
+			}
+			guestSrc[filepath.Base(f)] = b
+		}
 	}
 }
 
@@ -96,7 +106,9 @@ func NewScratch(tag string) (*Scratch, error) {
 		return nil, fmt.Errorf("guest source not found under %s/guest", vlib.Root)
 	}
 	os.MkdirAll(filepath.Join(dir, "guest"), 0o755)
-	os.WriteFile(filepath.Join(dir, "guest", "guest.go"), guestSrc, 0o644)
+	for name, b := range guestSrc {
+		os.WriteFile(filepath.Join(dir, "guest", name), b, 0o644)
+	}
 	cache := filepath.Join(vlib.Root, ".cache", "gobuild")
 	os.MkdirAll(cache, 0o755)
 	s.Env = []string{"GOFLAGS=-mod=mod", "GOPROXY=off", "GOSUMDB=off", "GOTOOLCHAIN=local", "GOCACHE=" + cache, "GOWORK=off"}
